@@ -141,6 +141,33 @@ pub fn flat_case(kind: &'static str) -> Case {
                     (false, Err(_)) => ctx.fact(&format!("{}-rejected", nflat), true, String::new()),
                 }
             }
+            // flat sizes where single precision stops representing every integer (2^24 and above) and around large
+            // squares: the layer constructor directly (a dense layer of that width would need gigabytes)
+            let mut big: Vec<usize> = Vec::new();
+            for base in [1usize << 24, 1 << 25, 1 << 26, 1 << 30, 4097 * 4097, 5793 * 5793, 8191 * 8191, 46341 * 46341, 65535 * 65535] {
+                for d in [0usize, 1, 2, 3, 255, 256] {
+                    big.push(base + d);
+                    big.push(base - d);
+                }
+            }
+            for n in big {
+                let r = (n as f64).sqrt().round() as usize;
+                let square = r * r == n;
+                let res = ctx.catch(|_| {
+                    let layer = match kind {
+                        "convolution" => Layer::Convolution(Convolution::create(Shape::Single(n), 1, &Activation::Linear, (1, 1), (1, 1), (0, 0), (1, 1), None)),
+                        "deconvolution" => Layer::Deconvolution(Deconvolution::create(Shape::Single(n), 1, &Activation::Linear, (1, 1), (1, 1), (0, 0), None)),
+                        _ => Layer::Maxpool(Maxpool::create(Shape::Single(n), (1, 1), (1, 1))),
+                    };
+                    hooks::shapes(&layer).0
+                });
+                match (square, res) {
+                    (true, Ok(ins)) => ctx.fact(&format!("{}-read-as-1x{}x{}", n, r, r), shape_dims(&ins) == vec![1, r, r], format!("{:?}", ins)),
+                    (true, Err(m)) => ctx.fact(&format!("{}-accepted", n), false, format!("perfect square {}*{} rejected: {}", r, r, m)),
+                    (false, Ok(ins)) => ctx.fact(&format!("{}-rejected", n), false, format!("non-square flat size accepted and read as {:?}", ins)),
+                    (false, Err(_)) => ctx.fact(&format!("{}-rejected", n), true, String::new()),
+                }
+            }
         }),
     }
 }
